@@ -165,20 +165,22 @@ class Builder(ABC):
         # lifetime of the call to `fly` in a transient context variable. The
         # wrapper here manages the lifetime of that context.
 
-        try:
-            # Create simulation context. This is of a class derived from the
-            # base Context class that depends on the exact trajectory builder
-            # being used. Different trajectory builders will have different
-            # context requirements.
-            assert self.CONTEXT_CLASS is not None
-            self.ctx = self.CONTEXT_CLASS(
-                builder=self,
-                ac_performance=ac_performance,
-                mission=mission,
-                starting_mass=starting_mass,
-                **kwargs,
-            )
+        # Create simulation context. This is of a class derived from the base
+        # Context class that depends on the exact trajectory builder being
+        # used. Different trajectory builders will have different context
+        # requirements. (This is done before entering the `try` block: if the
+        # context constructor raises, there is no context to remove and the
+        # constructor's exception must propagate unchanged.)
+        assert self.CONTEXT_CLASS is not None
+        self.ctx = self.CONTEXT_CLASS(
+            builder=self,
+            ac_performance=ac_performance,
+            mission=mission,
+            starting_mass=starting_mass,
+            **kwargs,
+        )
 
+        try:
             # Allow user to specify starting mass if desired, but otherwise let
             # the trajectory builder calculate it.
             if self.starting_mass is None:
